@@ -105,6 +105,18 @@ def decideK (k : WL → PModel → Lit → Nat → Option UPOut) (wl : WL) (m : 
   | some v => if v = l.pol then some (wl, some m) else some (wl, none)
   | none => k wl (m.set l.var l.pol) l 0
 
+/-- choice of the new literal to watch among the remaining ones: the first (`candidate`) unless
+the clause `ci` already watches it, then the second (`nth(1)`).
+
+`repaired = true` is the code as it is now: the list inspected to find out whether the candidate
+is already watched is chosen by `candidate.polarity()`. `repaired = false` is the original code:
+`watch_list_pos` if `new_assignment.polarity()` else `watch_list_neg` (finding F4). -/
+def pickWatch (repaired : Bool) (wl : WL) (l : Lit) (ci : Nat) (cand second : Lit) : Lit :=
+  let watched :=
+    if repaired then (wl.get cand.pol cand.var).contains ci
+    else (wl.get l.pol cand.var).contains ci
+  if watched then second else cand
+
 /-- The watcher loop of `UnitPropagate::decide` for the new assignment `l` (already set in `m`)
 at `watcher_idx = idx`.
 
@@ -131,13 +143,10 @@ def loop (cnf : Cnf) (repaired : Bool) :
       | some (wl', none) => some (wl', none)
       | some (wl', some m') => loop cnf repaired fuel wl' m' l (idx + 1)
     | cand :: second :: _ =>
-      let watched :=
-        if repaired then (wl.get cand.pol cand.var).contains ci
-        else (wl.get l.pol cand.var).contains ci
-      let newLit := if watched then second else cand
-      let wl1 := wl.upd (!l.pol) l.var (swapRemove ws idx)
-      let wl2 := wl1.push newLit ci
-      loop cnf repaired fuel wl2 m l idx
+      let newLit := pickWatch repaired wl l ci cand second
+      -- `swap_remove(watcher_idx)` from the falsified literal's list, `push` onto the new one;
+      -- `watcher_idx` is not advanced
+      loop cnf repaired fuel ((wl.upd (!l.pol) l.var (swapRemove ws idx)).push newLit ci) m l idx
 
 /-- `UnitPropagate::decide` (repaired) -/
 def decide (cnf : Cnf) (fuel : Nat) (wl : WL) (m : PModel) (l : Lit) : Option UPOut :=
